@@ -31,7 +31,7 @@ if [ "$REPO" != "/repo" ]; then
 fi
 cleanup() {
   [ -n "$TMPMOD" ] && rm -rf "$TMPMOD"
-  if [ -n "$suffix" ]; then rm -f "$BIN/mon$suffix" "$BIN/mon-race$suffix" "$BIN/mon-cover$suffix"; fi
+  if [ -n "$suffix" ]; then rm -f "$BIN/mon$suffix" "$BIN/mon-race$suffix" "$BIN/mon-cover$suffix" "$BIN"/solo-*"$suffix"; fi
 }
 trap cleanup EXIT
 
@@ -68,6 +68,7 @@ case "${1:-}" in
   --build)
     build "$BIN/mon" || exit 2
     build "$BIN/mon-race" -race || exit 2
+    for sp in date roman sem size uu; do (cd "$ROOT/harness" && go build "${MODFLAG[@]}" -o "$BIN/solo-$sp" ./cmd/solo_$sp) || exit 2; done
     exit 0 ;;
   --replay)
     build "$BIN/mon$suffix" || { echo "INCONCLUSIVE build failed"; exit 2; }
@@ -91,6 +92,19 @@ if ! build "$MON" "${FLAGS[@]}"; then
   exit 2
 fi
 export VERIF_MON="$MON"
+
+# single-package programs (harness/cmd/solo_<pkg>): the property's package linked without its siblings
+case "$PROP" in
+  C01|C09) SOLO=date;; C02|C10) SOLO=roman;; C03|C06) SOLO=sem;; C04|C08|C13) SOLO=size;; C05) SOLO=uu;; *) SOLO="";;
+esac
+if [ -n "$SOLO" ]; then
+  if (cd "$ROOT/harness" && go build "${MODFLAG[@]}" -o "$BIN/solo-$SOLO$suffix" ./cmd/solo_$SOLO) 2>&1; then
+    export "VERIF_SOLO_$(echo "$SOLO" | tr a-z A-Z)=$BIN/solo-$SOLO$suffix"
+  else
+    echo "INCONCLUSIVE property=$PROP reason=single-package program of $SOLO does not build against $REPO"
+    exit 2
+  fi
+fi
 
 # generous wall-clock watchdog; its firing is inconclusive, never a violation
 WD=1800; [ "$TIER" = "thorough" ] && WD=10800
